@@ -372,12 +372,31 @@ pub enum Comments {
     None,
 }
 
+/// true if the block holds nothing but comments (possibly inside nested style rules / @media /
+/// @supports); unknown at-rules are never dropped by Sass, so they do not count
+fn only_ignored_comments(prelude: &[Tok], children: &[Node]) -> bool {
+    if matches!(prelude.first(), Some(Tok::AtKeyword(k)) if !matches!(k.to_ascii_lowercase().as_str(), "media" | "supports")) {
+        return false;
+    }
+    !children.is_empty()
+        && children.iter().all(|c| match c {
+            Node::Comment(_) => true,
+            Node::Block { prelude, children } => only_ignored_comments(prelude, children),
+            _ => false,
+        })
+}
+
 pub fn canon_nodes(nodes: &[Node], o: CanonOpts, comments: Comments) -> Vec<CNode> {
     let mut out = vec![];
     for n in nodes {
         match n {
             Node::Block { prelude, children } => {
                 let ch = canon_nodes(children, o, comments);
+                // a block whose only content is comments that this comparison ignores is itself
+                // ignored (compressed output omits such a rule together with its comment)
+                if ch.is_empty() && only_ignored_comments(prelude, children) {
+                    continue;
+                }
                 if matches!(prelude.first(), Some(Tok::AtKeyword(_))) {
                     out.push(CNode::AtBlock {
                         prelude: canon_tokens(prelude, o),
